@@ -167,7 +167,7 @@ pub fn crl_space(iss: &Issuers, conformant_only: bool) -> Space<CrlCase> {
             d.values.retain(|(l, _)| !l.contains("nc:") && l != "dn=empty");
         }
     }
-    Space { base: CrlCase { st: CrlState::default(), issuer: 0 }, dims }
+    Space { base: CrlCase { st: crate::glue::base_crl_state(), issuer: 0 }, dims }
 }
 
 /// Independent revocation verdicts (OpenSSL, webpki) for every listed serial and its neighbours.
